@@ -447,6 +447,28 @@ def gen_1d(rng, n, R, ctx):
         if op == "c11.max":
             prog = prog + ["neg"]
         R.append(req_1d(op, xl, xr, tol, prog, meta + ["od=%d" % math.floor(od), "hd=%d" % math.floor(hd)]))
+    # exact ties between the two starting values, in both orders of the abscissae (xLeft > xRight included): symmetric
+    # objectives with dyadic centre and half-width, so that f(xLeft) == f(xRight) bit-for-bit
+    for t in range(max(8, n // 16)):
+        c = dy(rng, -16, 16, 2)
+        h = 2.0 ** rng.randint(-3, 3) * rng.choice([1, 1.5, 1.25])
+        kind = t % 4
+        if kind == 0:
+            prog, meta = p_quad1(c, rng.choice([1.0, 0.5, 2.0]), dy(rng, -4, 4)), meta_tokens("quad1", [c])
+        elif kind == 1:
+            prog, meta = p_pow4(c, rng.choice([1.0, 0.25]), 0.0), meta_tokens("pow4", [c], 0.0)
+        elif kind == 2:
+            prog, meta = p_ratbowl(c, 1.0, rng.choice([0.25, 1.0]), 0.0), meta_tokens("ratbowl", [c], 0.0)
+        else:
+            a_ = rng.choice([0.5, 2.0]); prog, meta = p_pw(c, a_, a_, 0.0), meta_tokens("pw", [c], 0.0)
+        if kind == 0:
+            meta = meta_tokens("quad1", [c], float.fromhex(prog[-2][1:]))
+        xl, xr = (c + h, c - h) if t % 3 else (c - h, c + h)
+        tol = rng.choice([3e-8, 1e-5, 1e-10])
+        if t % 2:
+            R.append(req_1d("c11.max", xl, xr, tol, prog + ["neg"], meta + ["tie=1"]))
+        else:
+            R.append(req_1d("c11.min", xl, xr, tol, prog, meta + ["tie=1"]))
     # fixed corner cases: equal values at the two starts, start at the minimiser, symmetric start, tol = 0
     q = p_quad1(0.0, 1.0, 0.0)
     for xl, xr, tol in [(-1.0, 1.0, 3e-8), (0.0, 1.0, 3e-8), (1.0, 0.0, 3e-8), (2.0, 2.5, 1e-3), (-3.0, 5.0, 1e-12),
@@ -1110,9 +1132,16 @@ def oracle_1d(R, impl, ctx):
                                 "f(result)=%r best evaluated=%r" % (fx, best)))
     if mx and second is not None:
         x2, fx2, tr2 = second
-        if x2 != x or tr2 != tr:
+        if not same(x2, x):
+            # the clause of the property: the two RESULTS are the same double
             out.append(fail("prop", "Find_Maximum(f) is not Find_Minimum(-f) bit-for-bit",
                             "max: %r (%d evals)  min of -f: %r (%d evals)" % (x, len(tr), x2, len(tr2))))
+        elif distinct_first([(u,) for u in tr])[0] != distinct_first([(u,) for u in tr2])[0]:
+            # same result through other evaluation points: not what the property states, reported as correspondence
+            out.append(fail("corr", "Find_Maximum(f) reaches the result of Find_Minimum(-f) through other evaluation points",
+                            "%d vs %d evaluations" % (len(tr), len(tr2))))
+        elif len(tr) != len(tr2):
+            bump(ctx, "maxmin.raw-count-differs-by-repeats")
     if R["cls"] in BOWL_1D and "fs" in R and not math.isnan(fx) and R["xl"] != R["xr"]:
         msg = conv_1d(R, x, ctx)
         if msg:
@@ -1121,17 +1150,40 @@ def oracle_1d(R, impl, ctx):
     return out
 
 
+def distinct_first(points, bits=None):
+    """the observations of a 1-D run: the DISTINCT abscissae in order of first occurrence (the objective is a function:
+    an abscissa evaluated again returns the same value and is the same observation; theorems findMinimum_memoised,
+    brentNR_eq).  The margin of a dropped repeat is carried to the next kept observation (or to the stop decision)."""
+    seen, out, ob, pend = set(), [], [], 0
+    for i, pnt in enumerate(points):
+        b = bits[i] if bits is not None else 0
+        if pnt in seen:
+            pend = max(pend, b)
+            continue
+        seen.add(pnt)
+        out.append(pnt); ob.append(max(pend, b)); pend = 0
+    return out, ob, pend
+
+
 def corr_1d(R, impl, model, ctx):
     out = []
     x, fx, tr, second = parse_impl_1d(R, impl)
     t = toks(model)
     xm = mval(t[0]); fm = mval(t[1]); stopbits = int(t[2]); n = int(t[3])
-    trm = [(mval(t[4 + 2 * i]),) for i in range(n)]
-    bits = [int(t[5 + 2 * i]) for i in range(n)]
-    fs, full = trace_compare([(u,) for u in tr], trm, bits, stopbits, ctx, "Find_Maximum" if R["op"] == "c11.max" else "Find_Minimum")
+    trm_raw = [(mval(t[4 + 2 * i]),) for i in range(n)]
+    bits_raw = [int(t[5 + 2 * i]) for i in range(n)]
+    # the property does not fix the number of evaluations in one dimension: compare the distinct evaluation points
+    tri, _, _ = distinct_first([(u,) for u in tr])
+    trm, bits, pend = distinct_first(trm_raw, bits_raw)
+    stopbits = max(stopbits, pend)
+    if len(tr) != len(trm_raw):
+        bump(ctx, "trace1d.raw-count-differs-by-repeats" if len(tri) == len(trm) else "trace1d.raw-count-differs")
+    bump(ctx, "trace1d.repeats.impl", len(tr) - len(tri))
+    bump(ctx, "trace1d.repeats.model", len(trm_raw) - len(trm))
+    fs, full = trace_compare(tri, trm, bits, stopbits, ctx, "Find_Maximum" if R["op"] == "c11.max" else "Find_Minimum")
     out += fs
     if full:
-        bump(ctx, "trace.identical" if [(u,) for u in tr] == trm else "trace.within-tolerance")
+        bump(ctx, "trace.identical" if tri == trm else "trace.within-tolerance")
         if x != xm:
             d = abs(x - xm)
             if not (d <= 2.0 ** -40 * abs(xm) + 1e-300):
